@@ -277,6 +277,14 @@ def typed_count(n, flags):
         return np.int64(n)
     if 'np32' in flags:
         return np.int32(n)
+    if 'npu8' in flags and 0 <= n <= 255:
+        return np.uint8(n)
+    if 'npi8' in flags and 0 <= n <= 127:
+        return np.int8(n)
+    if 'npi16' in flags and 0 <= n <= 32767:
+        return np.int16(n)
+    if 'npu64' in flags and n >= 0:
+        return np.uint64(n)
     if 'npf' in flags:
         return np.float64(n)
     if 'pyf' in flags:
@@ -766,6 +774,16 @@ def catalogue_extra(fs):
 def has_filter(cfg):
     """a stateful scipy filter somewhere in the chain"""
     return cfg['t'] in ('notch', 'blnoise', 'firnoise', 'shaped') or ('in' in cfg and has_filter(cfg['in']))
+
+
+def narrow_history(rng):
+    """draw counts handed over as NARROW NumPy integers whose running total leaves their range (three times uint8 200,
+    int8 100): the generator's own position must not live in the type of the count it was handed"""
+    k, n = rng.choice([('npu8', 200), ('npi8', 100), ('npu8', 255), ('npu64', 7), ('npi16', 300)])
+    ops = [['next', n, k], ['next', n, k], ['query'], ['next', n, k]]
+    if rng.random() < 0.5:
+        ops += [['reset'], ['next', 2 * n if k in ('npu64', 'npi16') else n, k], ['next', 5]]
+    return ops
 
 
 def kinds_history(cfg, fs, rng, total=None):
